@@ -14,13 +14,29 @@ import time
 
 VERIF = os.path.dirname(os.path.dirname(os.path.dirname(os.path.abspath(__file__))))
 REPO = os.environ.get("VERIF_REPO", "/repo")
-COQ = os.path.join(VERIF, "coq")
+COQ_MAIN = os.path.join(VERIF, "coq")
+COQ = COQ_MAIN
 CACHE = os.path.join(VERIF, ".cache")
 HARNESS = os.path.join(VERIF, "harness")
 EVID = os.path.join(VERIF, "evidence")
 REPLAYS = os.path.join(VERIF, "replays")
 _REPO_TAG = "" if REPO == "/repo" else "-" + hashlib.sha256(REPO.encode()).hexdigest()[:8]
 TARGET = os.environ.get("VERIF_TARGET_DIR", os.path.join(CACHE, "target" + _REPO_TAG))
+
+
+def _private_coq_tree():
+    """When a check runs against a scratch worktree (VERIF_REPO != /repo) it must not regenerate
+    coq/Gen/*.v inside the shared tree (other checks build against it concurrently): work in a private
+    copy of the Coq development, synced (sources and compiled files, timestamps preserved) from the main one."""
+    global COQ
+    if REPO == "/repo" or COQ != COQ_MAIN:
+        return
+    d = os.path.join(CACHE, "coq" + _REPO_TAG)
+    os.makedirs(d, exist_ok=True)
+    with Lock("coqmake"):
+        subprocess.run(["rsync", "-a", "--delete", "--exclude", ".lia.cache", "--exclude", ".nia.cache",
+                        COQ_MAIN + "/", d + "/"], check=True)
+    COQ = d
 
 
 def harness_dir():
@@ -550,3 +566,6 @@ def coq_str(s):
 
 def zlist(xs):
     return "[" + "; ".join(str(x) for x in xs) + "]"
+
+
+_private_coq_tree()
